@@ -141,6 +141,16 @@ def _simple_arg(e) -> bool:
     return False
 
 
+def _call_key(call):
+    """'name' for name(...), 'self.name' for self.name(...), else None"""
+    f = call.func
+    if isinstance(f, ast.Name):
+        return f.id
+    if isinstance(f, ast.Attribute) and isinstance(f.value, ast.Name) and f.value.id == 'self':
+        return 'self.' + f.attr
+    return None
+
+
 class Inliner:
     def __init__(self, tree: ast.Module, modname: str, baseline: set[str] | None, ext_refs: set[str]):
         self.tree, self.modname, self.baseline, self.ext_refs = tree, modname, baseline, ext_refs
@@ -155,7 +165,7 @@ class Inliner:
         if isinstance(fn, ast.AsyncFunctionDef) or fn.args.vararg or fn.args.kwarg:
             return False
         for d in fn.decorator_list:
-            if 'jit' not in ast.unparse(d):
+            if 'jit' not in ast.unparse(d) and ast.unparse(d) != 'staticmethod':
                 return False
         for n in _own(fn):
             if isinstance(n, (ast.Yield, ast.YieldFrom, ast.Await, ast.Global, ast.Nonlocal, ast.FunctionDef, ast.AsyncFunctionDef, ast.ClassDef)):
@@ -169,6 +179,11 @@ class Inliner:
             changed = False
             top = {n.name: n for n in self.tree.body if isinstance(n, (ast.FunctionDef, ast.AsyncFunctionDef))}
             cands = {name: fn for name, fn in top.items() if self.eligible(fn, name)}
+            # new methods of a class, called as self.name(...) from methods of the same class
+            class_methods = {}
+            for c in self.tree.body:
+                if isinstance(c, ast.ClassDef):
+                    class_methods[c.name] = {n.name: n for n in c.body if isinstance(n, ast.FunctionDef) and self.eligible(n, c.name + '.' + n.name)}
             for holder, qual in self._functions(self.tree.body, ''):
                 all_nested = [n for n in _own(holder) if isinstance(n, ast.FunctionDef) and self._direct(holder, n)]
                 known_nested = [q for q in (self.baseline or ()) if q.startswith(qual + '.') and '.' not in q[len(qual) + 1:]]
@@ -176,6 +191,9 @@ class Inliner:
                 renamed_only = len(all_nested) <= len(known_nested)
                 nested = {n.name: n for n in all_nested if not renamed_only and self.eligible(n, qual + '.' + n.name)}
                 scope = {**{k: (v, False) for k, v in cands.items() if v is not holder}, **{k: (v, True) for k, v in nested.items()}}
+                cls = qual.split('.')[0] if '.' in qual else None
+                if cls in class_methods:
+                    scope.update({'self.' + k: (v, False) for k, v in class_methods[cls].items() if v is not holder})
                 if scope and self._expand_in(holder, scope):
                     changed = True
             if not changed:
@@ -235,8 +253,11 @@ class Inliner:
         else:
             return None
         for root in roots:
-            if isinstance(root, ast.Call) and isinstance(root.func, ast.Name) and root.func.id in scope and not isinstance(st, (ast.If, ast.For, ast.AugAssign, ast.AnnAssign)):
+            if isinstance(root, ast.Call) and _call_key(root) in scope and not isinstance(st, (ast.If, ast.For, ast.AugAssign, ast.AnnAssign)):
                 return root, None, True
+            if isinstance(root, ast.Call) and _call_key(root) in scope:
+                inner = self._search(root, scope)
+                return (inner[0], inner[1], False) if inner is not None else (root, st, False)
             found = self._search(root, scope)
             if found is not None:
                 return found[0], found[1], False
@@ -259,7 +280,7 @@ class Inliner:
         return None
 
     def _search_child(self, parent, child, scope):
-        if isinstance(child, ast.Call) and isinstance(child.func, ast.Name) and child.func.id in scope:
+        if isinstance(child, ast.Call) and _call_key(child) in scope:
             inner = self._search(child, scope)
             return inner if inner is not None else (child, parent)
         if isinstance(child, ast.AST):
@@ -271,7 +292,7 @@ class Inliner:
         if found is None:
             return None
         call, parent, direct = found
-        helper, is_nested = scope[call.func.id]
+        helper, is_nested = scope[_call_key(call)]
         if not direct:
             self.counter += 1
             tmp = f'__ret{self.counter}'
@@ -316,6 +337,13 @@ class Inliner:
             return None
         a = helper.args
         pos = [x.arg for x in a.posonlyargs + a.args]
+        is_method_call = isinstance(call.func, ast.Attribute)
+        static = any(ast.unparse(d) == 'staticmethod' for d in helper.decorator_list)
+        self_param = None
+        if is_method_call and not static:
+            if not pos:
+                return None
+            self_param, pos = pos[0], pos[1:]
         defaults = dict(zip(pos[len(pos) - len(a.defaults):], a.defaults))
         for k, d in zip(a.kwonlyargs, a.kw_defaults):
             if d is not None:
@@ -327,6 +355,8 @@ class Inliner:
             if k.arg in given or k.arg not in _params(helper):
                 return None
             given[k.arg] = k.value
+        if self_param is not None:
+            given[self_param] = ast.Name('self', ast.Load())
         for p in _params(helper):
             if p not in given:
                 if p not in defaults:
@@ -382,6 +412,12 @@ class Inliner:
                         if not body:
                             body.append(ast.Pass())
                         continue
+                if isinstance(st, ast.ClassDef):
+                    for m_ in list(st.body):
+                        if isinstance(m_, ast.FunctionDef) and m_.name in self.expanded and m_.name not in self.ext_refs:
+                            refs = sum(1 for n in ast.walk(self.tree) if isinstance(n, ast.Attribute) and n.attr == m_.name)
+                            if refs == 0:
+                                st.body.remove(m_)
                 if isinstance(st, (ast.FunctionDef, ast.AsyncFunctionDef)):
                     prune(st.body)
                     for n in _own(st):
